@@ -165,6 +165,7 @@ where
         P: consensus::Parameters + Send + 'static,
         IvkTag: Copy + Send + 'static,
     {
+        check_block_encoding(&block)?;
         let block_hash = block.hash();
         let block_height = block.height();
         let zip212_enforcement = zip212_enforcement(params, block_height);
@@ -235,6 +236,28 @@ where
     }
 }
 
+
+/// Checks the block-level and transaction-level fields that the infallible accessors of
+/// [`CompactBlock`] and `CompactTx` assume to be well-formed, so that a malformed block is
+/// reported as a [`ScanError`] instead of causing a panic further on.
+fn check_block_encoding(block: &CompactBlock) -> Result<(), ScanError> {
+    let height_ok = u32::try_from(block.height).is_ok();
+    let hashes_ok =
+        block.header().is_some() || (block.hash.len() == 32 && block.prev_hash.len() == 32);
+    let txs_ok = block
+        .vtx
+        .iter()
+        .all(|tx| tx.txid.len() == 32 && TxIndex::try_from(tx.index).is_ok());
+
+    if height_ok && hashes_ok && txs_ok {
+        Ok(())
+    } else {
+        Err(ScanError::BlockEncodingInvalid {
+            at_height: BlockHeight::from_u32(u32::try_from(block.height).unwrap_or(u32::MAX)),
+        })
+    }
+}
+
 #[tracing::instrument(skip_all, fields(height = block.height))]
 pub(crate) fn scan_block_with_runners<P, AccountId, IvkTag, TS, TO, TI>(
     params: &P,
@@ -252,6 +275,8 @@ where
     TO: OrchardTasks<IvkTag> + Sync,
     TI: IronwoodTasks<IvkTag> + Sync,
 {
+    check_block_encoding(&block)?;
+
     fn check_hash_continuity(
         block: &CompactBlock,
         prior_block_metadata: Option<&BlockMetadata>,
